@@ -12,6 +12,7 @@ mod model;
 mod observe;
 mod props;
 mod runner;
+mod spec;
 mod util;
 mod vtime;
 
@@ -22,8 +23,12 @@ macro_rules! dispatch {
     ($id:expr, $f:ident $(, $arg:expr)*) => {
         match $id {
             "C01" => runner::$f::<props::c01::P>($($arg),*),
+            "C02" => runner::$f::<props::c02::P>($($arg),*),
+            "C05" => runner::$f::<props::c05::P>($($arg),*),
             "C08" => runner::$f::<props::c08::P>($($arg),*),
             "C09" => runner::$f::<props::c09::P>($($arg),*),
+            "C17" => runner::$f::<props::c17::P>($($arg),*),
+            "C12" => runner::$f::<props::c12::P>($($arg),*),
             "C15" => runner::$f::<props::c15::P>($($arg),*),
             other => {
                 eprintln!("unknown property {other}");
@@ -77,6 +82,7 @@ fn main() {
         Some("worker") => {
             let id = args[2].clone();
             let tier = Tier::parse(&args[3]);
+            std::env::set_var("FLV_TIER", tier.name());
             let seed: u64 = args[4].parse().unwrap_or(0);
             let chunk = args[5].clone();
             let n: u64 = args[6].parse().unwrap_or(0);
